@@ -21,7 +21,33 @@ fn is_disc<T>(r: &Result<T, TryRecvError>) -> bool {
     matches!(r, Err(TryRecvError::IpcError(IpcError::Disconnected)))
 }
 
+/// one concrete duration on an idle connected channel: returns Empty after ONE bounded wait whose length is
+/// the duration in milliseconds (floor or ceil); in particular a zero duration does not wait at all
+fn timeout_concrete(secs: u64, nanos: u32) {
+    setup(64);
+    let (tx, rx) = platform::channel().unwrap();
+    env::set_poll_times_out(true);
+    env::set_block_is_violation(true); // none of these durations may turn into 'wait for ever'
+    let r = rx.try_recv_timeout(Duration::new(secs, nanos));
+    let ms: i64 = (secs as i64) * 1000 + (nanos as i64) / 1_000_000;
+    let up: i64 = ms + if nanos % 1_000_000 != 0 { 1 } else { 0 };
+    let t = env::last_poll_timeout() as i64;
+    assert!(env::polls() >= 1, "C10: the timed receive must wait");
+    assert!(t == ms || t == up, "C10: wait is not the requested time in milliseconds");
+    let r2: Result<(), TryRecvError> = r.map(|_| ()).map_err(|e| e.into());
+    assert!(is_empty(&r2), "C10: timed-out wait must read Empty");
+    core::mem::forget(r2);
+    assert!(!env::is_nonblocking(ph::receiver_fd(&rx)), "C10: timed receive left the channel non-blocking");
+    drop((tx, rx));
+    end_ledger();
+}
+
 harnesses! {
+    #[unwind(8)] fn modes_timeout_zero() { timeout_concrete(0, 0) }
+    #[unwind(8)] fn modes_timeout_1ns() { timeout_concrete(0, 1) }
+    #[unwind(8)] fn modes_timeout_sub_ms() { timeout_concrete(0, 999_999) }
+    #[unwind(8)] fn modes_timeout_1ms() { timeout_concrete(0, 1_000_000) }
+    #[unwind(8)] fn modes_timeout_mixed() { timeout_concrete(2, 500_000_001) }
     // idle -> Empty (and the descriptor is blocking again), message -> message, closed -> Disconnected
     #[unwind(8)] fn modes_try_recv_sequence() {
         setup(64);
